@@ -26,7 +26,8 @@ func bookReportsReplay(e *env) error {
 			return err
 		}
 		e.count(1, 0, 0)
-		if stride > 1 && (idx+int(e.seed))%stride != 0 {
+		// (books whose size is within one recipe of the limit are always replayed: that is where the outcome flips)
+		if stride > 1 && (idx+int(e.seed))%stride != 0 && !(e.argInt("allcmds", 0) == 1 && len(c.Book) >= c.N-1 && len(c.Book) <= c.N+1) {
 			return nil
 		}
 		k := maxID(&c)
